@@ -60,6 +60,8 @@ def run(ctx):
         cases.append((ds, rrgen.gen_rule(rng, ds, big_times=(i % 10 == 9), numbered_limit=0.25, yearly_combos=0.15)))
     res, st, err = p_rr.run_cases(ctx, exe, cases, npop, timeout=120)
     fails, corr = [], []
+    kl = common.load_known("C01")
+    known_classes = {k.get("class") for k in kl if k.get("status") == "known"}      # classes of defects recorded, not repaired
     known = collections.Counter()
     shapes = collections.Counter()
     freqs = collections.Counter()
@@ -76,9 +78,9 @@ def run(ctx):
         want = parse_struct_expect(x["rule"])
         if x["struct"] != want:
             fails.append((x, "snarf_rrule reads RRULE:%s as\n   %s\nexpected\n   %s" % (x["rule"].text(), x["struct"], want)))
-        elif x["verdict"] and yearly_combo_p(x["rule"]):
+        elif x["verdict"] and yearly_combo_p(x["rule"]) and "yearly-parts-union" in known_classes:
             known["yearly-parts-union"] += 1
-        elif x["verdict"] and numbered_limit_p(x["rule"]):
+        elif x["verdict"] and numbered_limit_p(x["rule"]) and "numbered-byday-limit" in known_classes:
             known["numbered-byday-limit"] += 1
         elif x["verdict"]:
             fails.append((x, "DTSTART:%s RRULE:%s : %s" % (rrgen.dtstart_text(x["ds"]), x["rule"].text(), x["verdict"])))
@@ -121,13 +123,9 @@ def run(ctx):
         want = [hex16(t[0], t[1], t[2], 255, 0, 0, 0) if t[3] is None else hex16(t[0], t[1], t[2], t[3], t[4], t[5], 1023) for t in x["got"][:len(occ)]]
         if occ != want:
             fails.append((x, "the event read from a calendar starts %s, the rule stream built directly starts %s (RRULE:%s)" % (occ, want, x["rule"].text())))
-    kl = common.load_known("C01")
     for k in kl:
         if k.get("status") == "known" and known.get(k.get("class"), 0):
             ctx.known(k["what"])
-    unlisted = [c for c in known if c not in {k.get("class") for k in kl if k.get("status") == "known"}]
-    if unlisted and not fails:
-        fails.append((res[0], "deviations of class %s seen, which is not a recorded finding" % unlisted))
     ctx.cov.update({
         "known_class_hits": dict(known),
         "rules_in_class_numbered_byday_limit": sum(1 for x in res if numbered_limit_p(x["rule"])),
